@@ -856,6 +856,124 @@ theorem pending_is_last_epoch_list {env : Env} {cs : ClientState} {st : Store} {
       · rw [e] at hy0; exact absurd hy0 h0
       · exact hxmax y m hy0
 
+/-! ## frame: a client's accept set depends on its own committed state only -/
+
+theorem applyOp_untouched {env : Env} {w : World} {op : Op} {c : Nat} (h : op.touches c = false) :
+    (applyOp env w op).1 c = w c := by
+  cases op with
+  | create i cs0 =>
+    simp only [Op.touches, beq_eq_false_iff_ne, ne_eq] at h
+    simp only [applyOp]
+    cases w i with
+    | some s => rfl
+    | none =>
+      simp only
+      cases createClient env cs0 <;> simp [World.set, Ne.symm h]
+  | update i bt hd =>
+    simp only [Op.touches, beq_eq_false_iff_ne, ne_eq] at h
+    simp only [applyOp]
+    cases w i with
+    | none => rfl
+    | some s =>
+      obtain ⟨cs, st⟩ := s
+      simp only
+      cases updateClient Fix.fixed env cs st bt hd <;> simp [World.set, Ne.symm h]
+  | dry i bt hd =>
+    simp only [applyOp]
+    cases w i with
+    | none => rfl
+    | some s => rfl
+
+theorem applyOp_congr {env : Env} {w w' : World} {op : Op} {c : Nat} (hw : w c = w' c) (h : op.touches c = true) :
+    (applyOp env w op).1 c = (applyOp env w' op).1 c ∧ (applyOp env w op).2 = (applyOp env w' op).2 := by
+  cases op with
+  | create i cs0 =>
+    simp only [Op.touches, beq_iff_eq] at h
+    subst h
+    simp only [applyOp]
+    rw [hw]
+    cases w' i with
+    | some s => exact ⟨hw, rfl⟩
+    | none =>
+      simp only
+      cases createClient env cs0 with
+      | ok s => simp [World.set]
+      | err e => exact ⟨hw, rfl⟩
+      | panic p => exact ⟨hw, rfl⟩
+  | update i bt hd =>
+    simp only [Op.touches, beq_iff_eq] at h
+    subst h
+    simp only [applyOp]
+    rw [hw]
+    cases w' i with
+    | none => exact ⟨hw, rfl⟩
+    | some s =>
+      obtain ⟨cs, st⟩ := s
+      simp only
+      cases updateClient Fix.fixed env cs st bt hd with
+      | ok s => simp [World.set]
+      | err e => exact ⟨hw, rfl⟩
+      | panic p => exact ⟨hw, rfl⟩
+  | dry i bt hd => simp [Op.touches] at h
+
+/-- **frame**: the committed state of client `c` after a history is the state after the sub-history of the
+operations that address `c` — operations on other clients and discarded executions (`dry`, on any client,
+including `c` itself) are invisible. -/
+theorem frame {env : Env} (c : Nat) (ops : List Op) :
+    ∀ {w w' : World}, w c = w' c → runOps env w ops c = runOps env w' (ops.filter (Op.touches c)) c := by
+  induction ops with
+  | nil => intro w w' hw; exact hw
+  | cons op rest ih =>
+    intro w w' hw
+    unfold runOps
+    simp only [List.foldl_cons]
+    cases ht : op.touches c with
+    | false =>
+      simp only [List.filter_cons, ht]
+      exact ih (by rw [applyOp_untouched ht]; exact hw)
+    | true =>
+      simp only [List.filter_cons, ht, ↓reduceIte, List.foldl_cons]
+      exact ih (applyOp_congr hw ht).1
+
+/-- **accept set independence**: whether (and with which result) client `c` accepts header `h` after a history
+does not depend on what was verified elsewhere or in discarded executions — in particular a header whose seal was
+checked before (on another client, or in a dropped context) is judged exactly as if it had never been seen, and
+so is any copy of it with another seal. -/
+theorem accept_independent {env : Env} (c : Nat) (ops : List Op) (w : World) (bt : Nat) (h : Header) :
+    (applyOp env (runOps env w ops) (.update c bt h)).2
+      = (applyOp env (runOps env w (ops.filter (Op.touches c))) (.update c bt h)).2
+    ∧ (applyOp env (runOps env w ops) (.dry c bt h)).2
+      = (applyOp env (runOps env w (ops.filter (Op.touches c))) (.dry c bt h)).2 := by
+  have hf := frame (env := env) c ops (w := w) (w' := w) rfl
+  constructor
+  · exact (applyOp_congr hf (by simp [Op.touches])).2
+  · simp only [applyOp]; rw [hf]
+    cases runOps env w (List.filter (Op.touches c) ops) c with
+    | none => rfl
+    | some s => rfl
+
+/-- a discarded execution changes nothing, whatever it verified -/
+theorem dry_changes_nothing {env : Env} (w : World) (i bt : Nat) (h : Header) :
+    (applyOp env w (.dry i bt h)).1 = w := by
+  simp only [applyOp]
+  cases w i with
+  | none => rfl
+  | some s => rfl
+
+/-- the verdict of an update is the verdict of `updateClient` on the client's committed state and the header:
+two submissions of the same header to the same committed state get the same verdict, and a header is accepted
+only with its own recovered signer (`accept_sound`) — there is no other input. -/
+theorem update_verdict {env : Env} (w : World) (c bt : Nat) (h : Header) (cs : ClientState) (st : Store)
+    (hc : w c = some (cs, st)) :
+    (applyOp env w (.update c bt h)).2 = verdict (updateClient Fix.fixed env cs st bt h)
+    ∧ (applyOp env w (.dry c bt h)).2 = verdict (updateClient Fix.fixed env cs st bt h) := by
+  simp only [applyOp]
+  rw [hc]
+  simp only
+  constructor
+  · cases updateClient Fix.fixed env cs st bt h <;> rfl
+  · trivial
+
 /-! ## concrete runs: non-vacuity, and the witnesses of the defects of the code as found -/
 
 /-- create, then a list of `(blockTime, header)` updates; stops at the first failure; also checks the
